@@ -556,10 +556,22 @@ class Doc:
         if tag not in ("linearGradient", "radialGradient"):
             raise Unsupported("paint server %s" % tag)
 
+        KIND_ATTRS = {"x1", "y1", "x2", "y2", "cx", "cy", "r", "fx", "fy", "fr"}
+
         def attr(name, default=None):
+            crossed = False
             for c in chain:
-                if local(c.tag) in ("linearGradient", "radialGradient") and name in c.attrib:
-                    # x1.. only inherit from same-type? SVG: any gradient type for common attrs
+                lt = local(c.tag)
+                if lt not in ("linearGradient", "radialGradient"):
+                    continue
+                if name in KIND_ATTRS and lt != tag:
+                    # a template of the other kind cannot carry this attribute; whether one of ITS templates (of our kind
+                    # again) still counts is read differently (SVG 1.1's wording: no; browsers walk the whole chain)
+                    crossed = True
+                    continue
+                if name in c.attrib:
+                    if crossed:
+                        raise Unsupported("geometry attribute behind a template of the other kind: readings differ")
                     return c.attrib[name]
             return default
 
